@@ -69,6 +69,29 @@ class E2s(E2):
     pass
 
 
+class _V(_U):
+    """Value-equal events.  uid/parent/src/path are this harness's instrumentation; a user's events carry nothing of the
+    kind, and two of them with the same payload (two `Vote(choice="yes")`) compare equal under pydantic's `==`.  Events of
+    these types have no payload beyond the instrumentation, so any two of one type are equal; identity stays with `uid`."""
+
+    def __eq__(self, other: Any) -> bool:
+        return type(other) is type(self)
+
+    __hash__ = None  # type: ignore[assignment]
+
+
+class E0v(_V):
+    pass
+
+
+class E1v(_V):
+    pass
+
+
+class E2v(_V):
+    pass
+
+
 class E0x(E0):
     """Subclass of E0 that no generated step accepts."""
 
@@ -114,7 +137,7 @@ class Stop1(StopEvent):
     payload: Any = None
 
 
-TYPES = {c.__name__: c for c in [Start0, E0, E1, E2, E3, E4, E5, E6, E7, E0s, E1s, E2s, E0x, X0, Prog,
+TYPES = {c.__name__: c for c in [Start0, E0, E1, E2, E3, E4, E5, E6, E7, E0s, E1s, E2s, E0v, E1v, E2v, E0x, X0, Prog,
                                  Resp0, Resp1, Fin, Ask0, Stop1]}
 TYPES["StopEvent"] = StopEvent
 
